@@ -347,9 +347,27 @@ def named_local(body, operand):
     return None
 
 
-def local_by_name(body, name):
+def local_by_name(body, name, ty_prefix=None):
+    """the user variable `name`; when the name is declared more than once (shadowing: `let scale = match scale ..`)
+    ty_prefix picks the one whose type starts with it"""
     ls = [i for i, l in enumerate(body.locals) if l["name"] == name]
+    if len(ls) > 1 and ty_prefix is not None:
+        ls = [i for i in ls if norm(str(body.locals[i]["ty"])).startswith(ty_prefix)]
     return ls[0] if len(ls) == 1 else None
+
+
+def _reads_local(body, o, local, depth=0):
+    """operand o is (a copy of) `local` or of a part of it (`(local as Some).0`)"""
+    for _ in range(6):
+        if o.get("k") not in ("copy", "move"):
+            return False
+        if o["place"]["l"] == local:
+            return True
+        d = mir.single_def(body, o["place"]["l"])
+        if d is None or d[0] != "assign" or d[4]["k"] != "use":
+            return False
+        o = d[4]["op"]
+    return False
 
 
 def switch_local_tests(body, local):
@@ -390,7 +408,8 @@ def switch_local_tests(body, local):
                 elif rv["k"] == "unop":
                     o = rv["x"]
                 elif rv["k"] == "binop":
-                    hit = any(x.get("k") in ("copy", "move") and named_local(body, x) == local for x in (rv["l"], rv["r"]))
+                    hit = any(x.get("k") in ("copy", "move") and (named_local(body, x) == local or _reads_local(body, x, local))
+                              for x in (rv["l"], rv["r"]))
                     break
                 else:
                     break
